@@ -53,6 +53,9 @@ def _fold(t: Term, what: str) -> bool:
         return True
     if t == FALSE:
         return False
+    from ..sym import _int_const
+    if _int_const(t) is not None:
+        return _int_const(t) != 0          # the truth value of an integer (a bit mask tested with ``bool(a & b)``)
     raise Unsupported(f"{what}: formula does not reduce to a constant on a concrete valuation: {show(t)}")
 
 
